@@ -1250,12 +1250,15 @@ func (e *Exec) atReturn(st *State, x *ssa.Return) {
 		c.where = fmt.Sprintf("%s:%d", cl.File, cl.Line)
 		t, err := c.evalBool(strings.TrimSpace(cl.Expr))
 		if err != nil {
-			if strings.Contains(err.Error(), "unknown identifier") {
-				// the clause talks about a variable that does not exist on this return path
-				continue
-			}
-			panic(fmt.Sprintf("at_return: %v", err))
+			// the clause talks about a variable that does not exist (or has another type: the
+			// bindings of a type switch) on this return path; every clause must apply somewhere
+			// (checked after the run)
+			continue
 		}
+		if e.atReturnHits == nil {
+			e.atReturnHits = map[int]int{}
+		}
+		e.atReturnHits[i]++
 		saved := e.propsDef
 		if len(cl.Props) > 0 {
 			e.propsDef = cl.Props
